@@ -4,6 +4,7 @@ ROOT="$(cd "$(dirname "${BASH_SOURCE[0]}")/.." && pwd)"
 cd "$ROOT"
 for d in seeded/*/; do
   n=$(basename "$d")
+  if python3 -c "import json,sys;sys.exit(0 if json.load(open('$d/meta.json')).get('obsolete') else 1)" 2>/dev/null; then echo "OBSOLETE $n"; continue; fi
   prop=$(python3 -c "import json;print(json.load(open('$d/meta.json'))['property'])" 2>/dev/null)
   extra=$(cat "$d/also_checks" 2>/dev/null)
   ./scripts/try_seed.sh "$n" $prop $extra 2>&1 | grep -v "null byte" | cut -c1-160
